@@ -505,6 +505,9 @@ GLOBAL_ALLOW: Dict[Tuple[str, str], str] = {
     ('hip_ra_x.py', 'HIP_RA_X._ureg'): 'pint application registry; only read',
 }
 
+# stores to class attributes from inside functions: (file, Class.attr) -> reason it cannot carry run-specific data
+CLASS_ATTR_STORE_ALLOW: Dict[Tuple[str, str], str] = {}
+
 FOREIGN_WRITE_ALLOW = {
     ('SurfacePlantDistrictHeating.py', 'np.demand'): 'write-only attribute on the numpy module (a typo for the local `demand`); '
                                                      'the rule re-checks on every run that nothing in src/ reads it',
@@ -661,6 +664,32 @@ def check_p2(ctx) -> None:
                             f'class-level mutable `{ci.name}.{tgt}` is mutated at {mutated_cls}: shared across runs')
                 else:
                     ctx.ok('P2', key, f'{mi.rel}:{st.lineno}', reason or 'class-level table, never mutated')
+    # (d2) stores to a class attribute from inside a function (`SomeClass.attr = ...`, `cls.attr = ...`, `type(self).attr = ...`): state that
+    # outlives the instance and is shared by every subclass that does not shadow it
+    for f in repo.all_functions():
+        if not isinstance(f.node, (ast.FunctionDef, ast.AsyncFunctionDef)):
+            continue
+        for st in walk_no_nested(f.node):
+            if not isinstance(st, (ast.Assign, ast.AugAssign)):
+                continue
+            for t in (st.targets if isinstance(st, ast.Assign) else [st.target]):
+                b = t.value if isinstance(t, ast.Subscript) else t
+                if not isinstance(b, ast.Attribute):
+                    continue
+                recv = norm(b.value)
+                is_cls = (isinstance(b.value, ast.Name) and b.value.id != 'self' and b.value.id in repo.classes) or recv in ('cls', 'type(self)', 'self.__class__')
+                if not is_cls:
+                    continue
+                n += 1
+                key = f'{f.qualname}/class-attribute-store:{recv}.{b.attr}'
+                reason = CLASS_ATTR_STORE_ALLOW.get((f.module.rel.split('/')[-1], f'{recv}.{b.attr}')) or \
+                    GLOBAL_ALLOW.get((f.module.rel.split('/')[-1], f'{recv}.{b.attr}'))
+                if reason:
+                    ctx.ok('P2', key, f'{f.module.rel}:{st.lineno}', reason)
+                else:
+                    ctx.bad('P2', key, f'{f.module.rel}:{st.lineno}',
+                            f'`{norm(st)[:80]}` stores into a class attribute: the value outlives the object, is seen by every later instance and by '
+                            f'every subclass that does not define its own (a result computed for one request or one generator is handed to the next)')
     # (e) memoisation
     n_cache = 0
     for f in repo.all_functions():
